@@ -809,6 +809,26 @@ def lin_complete_rule(ctx):
     return res
 
 
+def _diag_stores(fi):
+    """[(local matrix name, value text)] for stores `M[self.diag_indices[0], self.diag_indices[1]] = v`
+    (also the torch.diagonal(M).copy_(v) / M.diagonal().copy_(v) spellings)."""
+    out = []
+    if fi is None:
+        return out
+    for n in ast.walk(fi.node):
+        if isinstance(n, ast.Assign) and len(n.targets) == 1 and isinstance(n.targets[0], ast.Subscript) and isinstance(n.targets[0].value, ast.Name):
+            idx = norm_text(n.targets[0].slice).replace(" ", "")
+            if idx in ("(self.diag_indices[0],self.diag_indices[1])",):
+                out.append((n.targets[0].value.id, norm_text(n.value)))
+        elif isinstance(n, ast.Call) and isinstance(n.func, ast.Attribute) and n.func.attr in ("copy_", "fill_") and n.args:
+            r = n.func.value
+            if isinstance(r, ast.Call) and _last(r) == "diagonal":
+                base = r.func.value if isinstance(r.func, ast.Attribute) and not (isinstance(r.func.value, ast.Name) and r.func.value.id == "torch") else (r.args[0] if r.args else None)
+                if isinstance(base, ast.Name):
+                    out.append((base.id, norm_text(n.args[0])))
+    return out
+
+
 def lin_logdet_rule(ctx):
     p = ctx.p
     res = RuleResult("LIN-LOGDET", "forward/inverse no-cache paths return +/- logabsdet(), which sums the log of the same diagonal that fills the triangular / diagonal factor in every view of the map")
@@ -869,8 +889,9 @@ def lin_logdet_rule(ctx):
             txt = norm_text(m.node)
             uses[mname] = txt
         if cname == "LULinear":
-            mk = uses.get("_create_lower_upper", "")
-            if "upper[self.diag_indices[0], self.diag_indices[1]] = self.upper_diag" in mk and "lower[self.diag_indices[0], self.diag_indices[1]] = 1.0" in mk:
+            ds = _diag_stores(cls.methods.get("_create_lower_upper"))
+            vals = sorted(v for _, v in ds)
+            if vals in (["1.0", "self.upper_diag"], ["1", "self.upper_diag"]) and len({t for t, _ in ds}) == 2:
                 res.ok("LULinear: U's diagonal is self.upper_diag, L's diagonal is 1")
             else:
                 res.fail(Finding("LIN-LOGDET", cls.module, cname + "._create_lower_upper", cls.methods["_create_lower_upper"].node, "the diagonal of U must be self.upper_diag (the quantity logabsdet() sums) and the diagonal of L must be 1", construct="diagonals of L and U"))
@@ -880,8 +901,8 @@ def lin_logdet_rule(ctx):
                 else:
                     res.fail(Finding("LIN-LOGDET", cls.module, "%s.%s" % (cname, mname), cls.methods[mname].node if mname in cls.methods else cls.node, "%s does not use the shared factor constructor" % mname, construct="factors in " + mname))
         elif cname == "QRLinear":
-            mk = uses.get("_create_upper", "")
-            if "upper[self.diag_indices[0], self.diag_indices[1]] = torch.exp(self.log_upper_diag)" in mk:
+            ds = _diag_stores(cls.methods.get("_create_upper"))
+            if [v for _, v in ds] == ["torch.exp(self.log_upper_diag)"]:
                 res.ok("QRLinear: R's diagonal is exp(self.log_upper_diag)")
             else:
                 res.fail(Finding("LIN-LOGDET", cls.module, cname + "._create_upper", cls.methods["_create_upper"].node, "the diagonal of R must be exp(self.log_upper_diag), whose sum logabsdet() returns", construct="diagonal of R"))
